@@ -215,6 +215,11 @@ void harness(void)
 			VP_ASSERT(VP_R_OK(p, avail), "stream: chunk is readable");
 			s->advance_buffer(s, avail);
 		}
+		if (ret != 0) {
+			/* a stream that reported an error or end-of-file stays that way */
+			int r2 = s->get_buffered_data(s, &p, &avail, BS);
+			VP_ASSERT(r2 != 0, "C05/C10: after an error or end-of-file the stream never hands out data again (no stale or uninitialised bytes)");
+		}
 		if (ret > 0)
 			VP_REACH("eof");
 		else if (ret < 0)
